@@ -41,10 +41,16 @@ def rule_a(repo, chk):
     chk.ob('C20.a', written == kws, save, 'keys written by save() == keyword parameters of __init__', 'written only: %s; accepted only: %s' % (sorted(written - kws), sorted(kws - written)))
     for p in sorted(popped):
         chk.ob('C20.a', p.lstrip('_') not in kws, save, 'popped key %r is not a constructor setting' % p)
-    d0 = [s for s in stmts_in(save, ast.Assign) if norm(s.targets[0]) == 'data']
-    ok = bool(d0) and norm(d0[0].value) == 'dict(self.__dict__)'
+    d0 = [s for s in stmts_in(save, ast.Assign) if norm(s.value) == 'dict(self.__dict__)' and isinstance(s.targets[0], ast.Name)]
+    ok = len(d0) == 1
+    if ok:
+        v0 = d0[0].targets[0].id
+        # what is dumped derives from that copy: `data` is it, or a comprehension over its items()
+        dd = [s for s in stmts_in(save, ast.Assign) if norm(s.targets[0]) == 'data']
+        ok = v0 == 'data' or any(isinstance(s.value, (ast.DictComp,)) and norm(s.value.generators[0].iter) == v0 + '.items()' for s in dd)
+        ok = ok and all(norm(c.func.value) == v0 for c in calls_in(save, 'pop'))
     chk.ob('C20.a', ok, save, 'save() starts from a copy of the instance dictionary')
-    comp = [s for s in d0 if isinstance(s.value, ast.DictComp)]
+    comp = [s for s in stmts_in(save, ast.Assign) if norm(s.targets[0]) == 'data' and isinstance(s.value, ast.DictComp)]
     ok = len(comp) == 1 and not comp[0].value.generators[0].ifs and norm(comp[0].value.key) == "k.lstrip('_')" and norm(comp[0].value.value) == 'v'
     chk.ob('C20.a', ok, save, 'every entry is written under its name without leading underscores, unfiltered (falsy settings such as smart_sys_path=False survive)',
            short(comp[0]) if comp else '')
@@ -56,9 +62,12 @@ def rule_a(repo, chk):
     chk.ob('C20.a', ok, load, 'load() builds the project with cls(**data)')
     ver = repo.toplevel(PROJ, '_SERIALIZER_VERSION')
     tests = [x for x in own_nodes(load) if isinstance(x, ast.Compare) and norm(x.left) == 'version']
-    ok = len(tests) == 1 and isinstance(tests[0].ops[0], ast.Eq) and (norm(tests[0].comparators[0]) == '_SERIALIZER_VERSION' or
-                                                                      (isinstance(tests[0].comparators[0], ast.Constant) and tests[0].comparators[0].value == ver.value.value))
-    chk.ob('C20.a', ok, load, 'load accepts exactly the version save writes (%s)' % norm(ver.value))
+    ok = len(tests) == 1 and isinstance(tests[0].ops[0], (ast.Eq, ast.NotEq)) and (norm(tests[0].comparators[0]) == '_SERIALIZER_VERSION' or
+                                                                                   (isinstance(tests[0].comparators[0], ast.Constant) and tests[0].comparators[0].value == ver.value.value))
+    chk.ob('C20.a', ok, load, 'load compares the stored version with the version save writes (%s)' % norm(ver.value))
+    # which way the comparison goes, and that nothing else is accepted: the function's path summary equals the pinned one
+    from ..summaries import check_summary
+    check_summary(repo, chk, 'C20.a', PROJ, 'Project.load')
     ok = any(isinstance(s, ast.Assign) and isinstance(s.targets[0], ast.Tuple) and norm(s.targets[0]) == '(version, data)' for s in stmts_in(load, ast.Assign))
     chk.ob('C20.a', ok, load, 'load unpacks (version, data) as written')
     ok = norm(calls_in(save, 'open')[0].args[0]) == 'self._get_json_path(self._path)' and 'cls._get_json_path(path)' in norm(load)
